@@ -295,6 +295,22 @@ Proof.
     intros c [<-|[<-|[<-|[<-|[<-|[]]]]]]; assumption.
 Qed.
 
+Lemma no_private_without_d d :
+  existsb (has d) private_without_d = false -> crt_none d /\ has d "oth" = false.
+Proof.
+  unfold private_without_d, crt_none, crt_names. cbn [existsb In].
+  destruct (has d "p") eqn:E1, (has d "q") eqn:E2, (has d "dp") eqn:E3, (has d "dq") eqn:E4,
+           (has d "qi") eqn:E5, (has d "oth") eqn:E6; cbn; try discriminate.
+  intros _. split; [|reflexivity]. intros c [<-|[<-|[<-|[<-|[<-|[]]]]]]; assumption.
+Qed.
+
+Lemma no_private_without_d_inv d :
+  crt_none d -> has d "oth" = false -> existsb (has d) private_without_d = false.
+Proof.
+  unfold private_without_d, crt_none, crt_names. intros H Ho. cbn [existsb].
+  rewrite !H by (cbn; tauto). rewrite Ho. reflexivity.
+Qed.
+
 Definition import_spec (O : oracles) (kt : ktype) (d : dict) (n : native) : Prop :=
   match kt with
   | KOct => exists k, dec_oct d "k" = Ok k /\ n = NOct k
@@ -307,7 +323,8 @@ Definition import_spec (O : oracles) (kt : ktype) (d : dict) (n : native) : Prop
           ((crt_all d /\ r_n (r_pub m) = nn /\ r_e (r_pub m) = e /\ r_d m = dd /\ dec_int d "p" = Ok (r_p m) /\ dec_int d "q" = Ok (r_q m) /\
             dec_int d "dp" = Ok (r_dp m) /\ dec_int d "dq" = Ok (r_dq m) /\ dec_int d "qi" = Ok (r_qi m))
            \/ (crt_none d /\ o_rsa_complete O nn e dd = Ok m))
-      else n = NRsaPub {| r_n := nn; r_e := e |} /\ o_rsa_pub O nn e = true
+      else crt_none d /\ has d "oth" = false /\
+           n = NRsaPub {| r_n := nn; r_e := e |} /\ o_rsa_pub O nn e = true
   | KEC =>
       exists crv bits x y, get_str d "crv" = Ok crv /\ ec_bits crv = Some bits /\
         dec_int d "x" = Ok x /\ dec_int d "y" = Ok y /\
@@ -315,7 +332,8 @@ Definition import_spec (O : oracles) (kt : ktype) (d : dict) (n : native) : Prop
         else o_ec_pub O crv x y = true /\ n = NEcPub crv x y
   | KOKP =>
       exists crv, get_str d "crv" = Ok crv /\ okp_known crv = true /\
-        if has d "d" then exists dd x, dec_oct d "d" = Ok dd /\ o_okp_prv O crv dd = Ok x /\ n = NOkpPrv crv x dd
+        if has d "d" then exists dd x, dec_oct d "d" = Ok dd /\ o_okp_prv O crv dd = Ok x /\
+                               dec_oct d "x" = Ok x /\ n = NOkpPrv crv x dd
         else exists x, dec_oct d "x" = Ok x /\ o_okp_pub O crv x = true /\ n = NOkpPub crv x
   end.
 
@@ -337,8 +355,10 @@ Proof.
         split; [reflexivity|]. split; [right; exact CN|].
         eexists. split; [eassumption|]. eexists. split; [reflexivity|]. split; [exact Hm|].
         right. split; assumption.
-    + intros H. inv_bind H. inv_bind H. apply if_ok in H. destruct H as [Hm <-].
-      exists a0, a. auto.
+    + destruct (existsb (has d) private_without_d) eqn:PW; [discriminate|].
+      intros H. inv_bind H. inv_bind H. apply if_ok in H. destruct H as [Hm <-].
+      exists a0, a. split; [assumption|]. split; [assumption|].
+      destruct (no_private_without_d d PW) as [CN NO]. auto.
   - unfold import_ec. intros H. inv_bind H.
     destruct (ec_bits a) as [bits|] eqn:B; [|discriminate].
     inv_bind H. inv_bind H. exists a, bits, a0, a1. repeat (split; [assumption|]).
@@ -349,7 +369,8 @@ Proof.
     destruct (okp_known a) eqn:Kn; cbn [negb] in H; [|discriminate].
     exists a. split; [assumption|]. split; [exact Kn|].
     destruct (has d "d").
-    + inv_bind H. inv_bind H. inversion H. eauto.
+    + inv_bind H. inv_bind H. inv_bind H. apply if_ok in H. destruct H as [Hm <-].
+      apply beqb_eq in Hm. subst. eauto 10.
     + inv_bind H. apply if_ok in H. destruct H as [Hm <-]. eauto.
 Qed.
 
@@ -601,6 +622,7 @@ Proof.
     cbn [import_from_dict]. unfold import_rsa.
     set (D := rsa_pub_dict (r_pub m)).
     replace (has D "d") with false by reflexivity.
+    replace (existsb (has D) private_without_d) with false by reflexivity.
     rewrite (dec_int_at D "e" _ _ eq_refl (enc_min_alpha _) (b2i_pos _ He)).
     rewrite (dec_int_at D "n" _ _ eq_refl (enc_min_alpha _) (b2i_pos _ Hn)).
     cbn [bind]. rewrite HO. destruct m as [[n e] d p q dp dq qi]. reflexivity.
@@ -657,7 +679,9 @@ Proof.
     replace (get_str D "crv") with (@Ok str crv) by reflexivity. cbn [bind]. rewrite Kn. cbn [negb].
     replace (has D "d") with true by reflexivity.
     rewrite (dec_oct_at D "d" _ d eq_refl (b64e_alphabet d Bd) (b64_roundtrip d Bd)). cbn [bind].
-    rewrite HO. reflexivity.
+    rewrite HO. cbn [bind].
+    rewrite (dec_oct_at D "x" _ x eq_refl (b64e_alphabet x Bx) (b64_roundtrip x Bx)). cbn [bind].
+    replace (beqb x x) with true by (symmetry; apply beqb_eq; reflexivity). reflexivity.
   - exists [(K "crv", PStr crv); (K "x", PStr (b64e x))].
     split; [reflexivity|]. split; [reflexivity|]. split; [reflexivity|].
     cbn [import_from_dict]. unfold import_okp.
@@ -770,7 +794,7 @@ Proof.
     by (intros k N; unfold dec_oct; rewrite (G _ N); reflexivity).
   destruct kt; cbn [import_from_dict].
   - unfold import_oct. rewrite (DO "k"%string) by nk. reflexivity.
-  - unfold import_rsa, has_all_prime_factors, crt_names. cbn [map].
+  - unfold import_rsa, has_all_prime_factors, crt_names, private_without_d. cbn [map existsb].
     rewrite (Hh "d"%string), (Hh "oth"%string), (Hh "p"%string), (Hh "q"%string), (Hh "dp"%string),
             (Hh "dq"%string), (Hh "qi"%string) by nk.
     rewrite (DI "e"%string), (DI "n"%string), (DI "d"%string), (DI "p"%string), (DI "q"%string),
@@ -965,14 +989,17 @@ Proof.
       * destruct C as (CN & Ec).
         rewrite Ho, Ee, En. cbn [bind]. rewrite (crt_none_has d CN). cbn [bind].
         rewrite Ed. cbn [bind]. rewrite Ec. cbn [bind]. rewrite Hm. reflexivity.
-    + destruct H as (-> & Hm). rewrite Ee, En. cbn [bind]. rewrite Hm. reflexivity.
+    + destruct H as (CN & Ho & -> & Hm). rewrite (no_private_without_d_inv d CN Ho).
+      rewrite Ee, En. cbn [bind]. rewrite Hm. reflexivity.
   - intros (crv & bits & x & y & Ec & B & Ex & Ey & H). unfold import_ec.
     rewrite Ec. cbn [bind]. rewrite B, Ex, Ey. cbn [bind]. destruct (has d "d").
     + destruct H as (dd & Ed & Hm & ->). rewrite Ed. cbn [bind]. rewrite Hm. reflexivity.
     + destruct H as (Hm & ->). rewrite Hm. reflexivity.
   - intros (crv & Ec & Kn & H). unfold import_okp. rewrite Ec. cbn [bind]. rewrite Kn. cbn [negb].
     destruct (has d "d").
-    + destruct H as (dd & x & Ed & Hm & ->). rewrite Ed. cbn [bind]. rewrite Hm. reflexivity.
+    + destruct H as (dd & x & Ed & Hm & Ex & ->). rewrite Ed. cbn [bind]. rewrite Hm. cbn [bind].
+      rewrite Ex. cbn [bind]. replace (beqb x x) with true by (symmetry; apply beqb_eq; reflexivity).
+      reflexivity.
     + destruct H as (x & Ex & Hm & ->). rewrite Ex. cbn [bind]. rewrite Hm. reflexivity.
 Qed.
 
@@ -1037,25 +1064,86 @@ Definition ex_rsa_pub_with_p : dict :=
   [(K "kty", PStr (asc "RSA")); (K "n", PStr (asc "sXchDaQebHnPiGvyDOAT4saGEUetSyo9MKLOoWFsueri23bOdgWp4Dy1WlUzewbgBHod5pcM9H95GQRV3JDXboIRROSBigeC5yjU1hGzHHyXss8UDprecbAYxknTcQkhslANGRUZmdTOQ5qTRsLAt6BTYuyvVRdhS8exSZEy_c4gs_7svlJJQ4H9_NxsiIoLwAEk7-Q3UXERGYw_75IDrGA84-lA_-Ct4eTlXHBIY2EaV7t7LjJaynVJCpkv4LKjTTAumiGUIuQhrNhZLuF_RJLqHpM2kgWFLU7-VTdL1VbC2tejvcI2BlMkEpk1BzBZI0KQB0GaDWFLN-aEAw3vRw"));
    (K "e", PStr (asc "AQAB")); (K "p", PStr (asc "!!!"))].
 
-Lemma rsa_public_partial_crt_witness :
-  exists O d k, import_key O KRSA d [] = Ok k /\
-    has d "d" = false /\ has d "p" = true /\ has d "q" = false /\ dec_int d "p" = Err EValue.
-Proof.
-  exists O_yes, ex_rsa_pub_with_p.
-  destruct (import_key O_yes KRSA ex_rsa_pub_with_p []) as [k|e] eqn:E;
-    [exists k; repeat split; reflexivity | vm_compute in E; discriminate E].
-Qed.
-
 Definition ex_okp_bad_x : dict :=
   [(K "kty", PStr (asc "OKP")); (K "crv", PStr (asc "Ed25519")); (K "x", PStr (asc "!!!"));
    (K "d", PStr (asc "nWGxne_9WmC6hEr0kuwsxERJxWl7MmkZcDusAxyuf2A"))].
 
-Lemma okp_x_undecoded_witness :
-  exists O d k, import_key O KOKP d [] = Ok k /\ has d "d" = true /\ dec_oct d "x" = Err EValue.
+(* formerly accepted (model of /repo before a02d1ea / a8ff773), now refused *)
+Lemma old_witnesses_refused :
+  has ex_rsa_pub_with_p "d" = false /\ has ex_rsa_pub_with_p "p" = true /\
+  has ex_rsa_pub_with_p "q" = false /\
+  import_key O_yes KRSA ex_rsa_pub_with_p [] = Err EValue /\
+  has ex_okp_bad_x "d" = true /\ dec_oct ex_okp_bad_x "x" = Err EValue /\
+  import_key O_yes KOKP ex_okp_bad_x [] = Err EValue /\
+  (* x decodes but is not the public key of d (O_yes: public bytes of d := d) *)
+  import_key O_yes KOKP (dset ex_okp_bad_x (K "x") (PStr (asc "nWGxne_9WmC6hEr0kuwsxERJxWl7MmkZcDusAxyuf2Q"))) [] = Err EValue /\
+  (exists k, import_key O_yes KOKP (dset ex_okp_bad_x (K "x") (PStr (asc "nWGxne_9WmC6hEr0kuwsxERJxWl7MmkZcDusAxyuf2A"))) [] = Ok k).
 Proof.
-  exists O_yes, ex_okp_bad_x.
-  destruct (import_key O_yes KOKP ex_okp_bad_x []) as [k|e] eqn:E;
-    [exists k; repeat split; reflexivity | vm_compute in E; discriminate E].
+  repeat split; try reflexivity; try (vm_compute; reflexivity).
+  eexists. vm_compute. reflexivity.
+Qed.
+
+Lemma rsa_private_member_without_d_refused O d ps c :
+  has d "d" = false -> In c private_without_d -> has d c = true ->
+  forall k, import_key O KRSA d ps <> Ok k.
+Proof.
+  intros Hd I Hc k H. apply reject in H. destruct H as (_ & _ & S).
+  cbn [import_spec] in S. destruct S as (nn & e & _ & _ & S). rewrite Hd in S.
+  destruct S as (CN & Ho & _).
+  unfold private_without_d in I. cbn [In] in I.
+  destruct I as [<-|[<-|[<-|[<-|[<-|[<-|[]]]]]]];
+    try (rewrite CN in Hc by (unfold crt_names; cbn; tauto); discriminate).
+  congruence.
+Qed.
+
+Lemma crt_all_or_none O d ps k : import_key O KRSA d ps = Ok k -> crt_all d \/ crt_none d.
+Proof.
+  intros H. apply reject in H. destruct H as (_ & _ & S).
+  cbn [import_spec] in S. destruct S as (nn & e & _ & _ & S).
+  destruct (has d "d"); [destruct S as (_ & C & _); exact C | destruct S as (CN & _); right; exact CN].
+Qed.
+
+Lemma okp_x_checked O d ps k :
+  import_key O KOKP d ps = Ok k -> has d "d" = true ->
+  exists crv dd x, k_native k = NOkpPrv crv x dd /\ dec_oct d "x" = Ok x /\
+                   dec_oct d "d" = Ok dd /\ o_okp_prv O crv dd = Ok x.
+Proof.
+  intros H Hd. apply reject in H. destruct H as (_ & _ & S).
+  cbn [import_spec] in S. destruct S as (crv & _ & _ & S). rewrite Hd in S.
+  destruct S as (dd & x & E1 & E2 & E3 & E4). exists crv, dd, x. auto.
+Qed.
+
+Lemma values_decode O kt d ps k :
+  import_key O kt d ps = Ok k ->
+  forall m, In m (match kt with
+                  | KOct => ["k"] | KRSA => ["n"; "e"; "d"; "p"; "q"; "dp"; "dq"; "qi"]
+                  | KEC => ["x"; "y"; "d"] | KOKP => ["x"; "d"] end)%string ->
+  has d m = true ->
+  match kt with KOct | KOKP => exists o, dec_oct d m = Ok o | _ => exists z, dec_int d m = Ok z end.
+Proof.
+  intros H m I Hm. apply reject in H. destruct H as (_ & _ & S).
+  destruct kt; cbn [import_spec] in S; cbn [In] in I.
+  - destruct S as (k0 & E & _). destruct I as [<-|[]]. eauto.
+  - destruct S as (nn & e & En & Ee & S).
+    destruct I as [<-|[<-|I]]; [eauto | eauto |].
+    destruct (has d "d") eqn:Hd.
+    + destruct S as (_ & _ & dd & Ed & mm & _ & _ & [C|C]).
+      * destruct C as (_ & _ & _ & _ & Ep & Eq & Edp & Edq & Eqi).
+        destruct I as [<-|[<-|[<-|[<-|[<-|[<-|[]]]]]]]; eauto.
+      * destruct C as (CN & _).
+        destruct I as [<-|I]; [eauto|]. exfalso.
+        destruct I as [<-|[<-|[<-|[<-|[<-|[]]]]]];
+          rewrite CN in Hm by (unfold crt_names; cbn; tauto); discriminate.
+    + destruct S as (CN & _). exfalso.
+      destruct I as [<-|I]; [congruence|].
+      destruct I as [<-|[<-|[<-|[<-|[<-|[]]]]]];
+        rewrite CN in Hm by (unfold crt_names; cbn; tauto); discriminate.
+  - destruct S as (crv & bits & x & y & _ & _ & Ex & Ey & S).
+    destruct I as [<-|[<-|[<-|[]]]]; [eauto | eauto |].
+    rewrite Hm in S. destruct S as (dd & Ed & _). eauto.
+  - destruct S as (crv & _ & _ & S). destruct (has d "d") eqn:Hd.
+    + destruct S as (dd & x & Ed & _ & Ex & _). destruct I as [<-|[<-|[]]]; eauto.
+    + destruct S as (x & Ex & _). destruct I as [<-|[<-|[]]]; [eauto | congruence].
 Qed.
 
 (* member types: registry.in_choices accepts a JSON string for key_ops and a
